@@ -371,3 +371,7 @@ mod tests {
         assert!(!manager.should_evict_for_trust(&node_id));
     }
 }
+
+#[cfg(kani)]
+#[path = "/verif/kani/eviction_proofs.rs"]
+mod verif_proofs;
